@@ -1,5 +1,6 @@
 import Tx3Proofs.C08
 import Tx3Proofs.C08Lang
+import Tx3Proofs.C01Map
 #print axioms Tx3.indexOf?_get
 #print axioms Tx3.C08_spend_sound
 #print axioms Tx3.insertRedeemer_keeps
@@ -11,3 +12,4 @@ import Tx3Proofs.C08Lang
 #print axioms Tx3.C08_redeemers_sound
 #print axioms Tx3.Lang.C08_redeemer_position_immaterial
 #print axioms Tx3.Lang.C08_policy_name_as_data
+#print axioms Tx3.Lang.C01_map_literal
